@@ -158,9 +158,10 @@ func (txnPoliciesAccessor *TxnPoliciesAccessor) UpdatePoliciesData(
 	// transactions have reached Engine. However, in case of a fail-safe scenario,
 	// we prefer to unmanage immediately in order to try to solve the issue immediately.
 	if unmanageImmediately {
-		unmanageHAProxyEndpointsVoided(haproxyEndpointsToRemove)
+		serial := currentHAProxyRequestSerial()
+		unmanageHAProxyEndpointsVoided(haproxyEndpointsToRemove, serial)
 		if shouldUnmanageGlobal {
-			unmanageGlobalVoided()
+			unmanageGlobalVoided(serial)
 		}
 	} else {
 		if shouldUnmanageGlobal {
@@ -222,30 +223,33 @@ func ScheduleUnmanageHAProxyEndpoints(haproxyEndpointsToRemove []*HAProxyEndpoin
 	if len(haproxyEndpointsToRemove) == 0 {
 		return
 	}
+	// whatever a later request registers again must survive this un-manage
+	serial := currentHAProxyRequestSerial()
 	go func() {
 		clock.Sleep(staleVersionTTL)
-		unmanageHAProxyEndpointsVoided(haproxyEndpointsToRemove)
+		unmanageHAProxyEndpointsVoided(haproxyEndpointsToRemove, serial)
 	}()
 }
 
 func scheduleUnmanageHAProxyGlobal() {
 	clock := contextmanager.Get().GetClock()
+	serial := currentHAProxyRequestSerial()
 	go func() {
 		clock.Sleep(staleVersionTTL)
-		unmanageGlobalVoided()
+		unmanageGlobalVoided(serial)
 	}()
 }
 
-func unmanageGlobalVoided() {
-	err := unmanageGlobal()
+func unmanageGlobalVoided(serial uint64) {
+	err := unmanageStaleGlobal(serial)
 	if err != nil {
 		log.Error().Err(err).Msg("Failed to unmanage global")
 	}
 	log.Debug().Msg("Successfully unmanaged global")
 }
 
-func unmanageHAProxyEndpointsVoided(haproxyEndpointsToRemove []*HAProxyEndpointData) {
-	err := unmanageHAProxyEndpoints(haproxyEndpointsToRemove)
+func unmanageHAProxyEndpointsVoided(haproxyEndpointsToRemove []*HAProxyEndpointData, serial uint64) {
+	err := unmanageStaleHAProxyEndpoints(haproxyEndpointsToRemove, serial)
 	if err != nil {
 		log.Error().Err(err).Msgf("Failed to unmanage HAProxy endpoints")
 		return
